@@ -108,8 +108,25 @@ def make_harness(kind, atol_none=False, canary=False, real_energies=False, zero_
             "MatrixBase": TypeObj("MatrixBase"), "zoo": pw.ZOO, "S": Namespace("S", {"Zero": 0, "One": 1}),
             "Matrix": Builtin("sympy.Matrix", lambda e, x: PSym(x.shape, x.elem, "Matrix", True)),
         })
+        def convert_if_zero(e, value, atol=None):
+            """callee contract of _convert_if_zero (its own unit: contracts/bd_guards): the sentinel iff every entry of a dense value is within atol
+            (default 1e-12) / a sparse value stores no non-zero / a symbolic value is identically zero; the value itself otherwise"""
+            if value is ZERO:
+                return ZERO
+            e.used_models.add("callee contract _convert_if_zero: sentinel iff all entries within atol (dense) / none stored (sparse) / identically zero (symbolic)")
+            allz = e.fresh("convert_if_zero_all_small", "bool")
+            if isinstance(value, PArr):
+                t = atol.e if isinstance(atol, SReal) else (z3.RealVal("1e-12") if atol is None else z3.RealVal(atol))
+                va = Cx.of(value.elem([a_w, b_w]))
+                e.assume(z3.Implies(allz, pw.AbsVal(va).cmp(ast.LtE(), t)))
+            else:
+                va = value.elem([a_w, b_w])
+                va = va.val if isinstance(va, SymVal) else Cx.of(va)
+                e.assume(z3.Implies(allz, va.is_zero()))
+            return ZERO if e.branch(allz) else value
+        a_w, b_w = z3.Ints("a b")
         eng.globals.update({"np": pw.make_np(), "sparse": sparse_ns, "sympy": sympy_ns,
-                            "Dagger": Builtin("Dagger", pw.dagger)})
+                            "Dagger": Builtin("Dagger", pw.dagger), "_convert_if_zero": Builtin("_convert_if_zero", convert_if_zero)})
         env = Env(None, {"eigs": eigs, "vecs_implicit": None, "atol": (None if atol_none else SReal(atol)), "index_checked": checked})
         clo = Closure(inner, env, "solve_sylvester")
         env.set("solve_sylvester", clo)   # the nested function can see its own name
